@@ -95,11 +95,12 @@ MAX_DEPTH = 25
 
 
 def max_depth(res):
+    """deepest nesting of handler invocations (each costs a handful of Python frames)"""
     d = m = 0
     for e in res[1]:
-        if e[0] == D.NLENTER:
+        if e[0] == D.HANDLER:
             d += 1; m = max(m, d)
-        elif e[0] == D.NLRETURN:
+        elif e[0] == D.HEND:
             d -= 1
     return m
 
